@@ -114,11 +114,7 @@ func (h POST) Do(w http.ResponseWriter, r *http.Request, exec graphql.GraphExecu
 
 	rc, opErr := exec.CreateOperationContext(ctx, params)
 	if opErr != nil {
-		if contentType == acceptApplicationGraphqlResponseJson {
-			w.WriteHeader(statusForGraphQLResponse(opErr))
-		} else {
-			w.WriteHeader(statusFor(opErr))
-		}
+		w.WriteHeader(statusForResponse(w, opErr))
 		resp := exec.DispatchError(graphql.WithOperationContext(ctx, rc), opErr)
 		writeJson(w, resp)
 		return
